@@ -58,7 +58,15 @@ def cases(ctx):
                 depth += 1
             if r.random() < 0.15:
                 steps.append({"reparse": True})
-        yield {"k": "chain", "seed": seed.hex(), "steps": steps, "neuter_at": r.randrange(0, len(steps) + 1)}
+        yield {"k": "chain", "seed": seed.hex(), "steps": steps, "neuter_at": r.randrange(0, len(steps) + 1), "impl": r.random() < 0.35}
+    # the longest well-formed path text: 255 components, every one a ten-digit hardened index (also through the *_impl twins)
+    if ctx.shard % 8 == 0 or t:
+        seed = gen.rbytes(r, 32)
+        for suffix in ("'", "h"):
+            idxs = [2**32 - 1] * 255
+            yield {"k": "chain", "seed": seed.hex(), "steps": [{"path": "m" + "".join("/2147483647" + suffix for _ in idxs), "idxs": idxs}], "neuter_at": 300, "deep": True, "impl": suffix == "h", "maxlen": True}
+        idxs = [2**31 - 1] * 255
+        yield {"k": "chain", "seed": seed.hex(), "steps": [{"path": "m" + "".join("/2147483647" for _ in idxs), "idxs": idxs}], "neuter_at": 0, "deep": True, "maxlen": True}
     if t:
         for i in range(1):
             if ctx.shard % 8 == 0:
@@ -120,6 +128,9 @@ def cmp_node(ctx, snap, node, where):
         exp["key"] = "%064x" % node.key
         got["key"] = o["key"]
     ok = True
+    if o.get("string_impl_eq") is False:
+        ctx.viol("%s: to_string_impl differs from to_string" % where, {})
+        ok = False
     for f in exp:
         ctx.ev()
         if got[f] != exp[f]:
@@ -142,7 +153,12 @@ def judge(ctx, case):
         if case.get("deep"):
             ctx.hit("depth255")
         steps = [{q: v for q, v in s.items() if q != "idxs"} for s in case["steps"]]
-        r = ctx.call({"op": "bip32", "start": {"seed": case["seed"]}, "steps": steps}, watchdog=300)
+        vi = bool(case.get("impl"))
+        if vi:
+            ctx.hit("via_impl")
+        if case.get("maxlen"):
+            ctx.hit("longest_path_text")
+        r = ctx.call({"op": "bip32", "start": {"seed": case["seed"]}, "steps": steps, "via_impl": vi}, watchdog=300)
         ctx.ev()
         if "ok" not in r:
             ctx.viol("private derivation chain could not be executed", {"resp": str(r)[:300]})
@@ -151,7 +167,7 @@ def judge(ctx, case):
         if not cmp_node(ctx, snaps[0], node, "master key from seed (%s seed length)" % ("standard" if 16 <= len(seed) <= 64 else "non-standard")):
             return
         # xpub from seed must equal the neutered master
-        rp = ctx.call({"op": "bip32", "start": {"xpub_seed": case["seed"]}})
+        rp = ctx.call({"op": "bip32", "start": {"xpub_seed": case["seed"]}, "via_impl": vi})
         if "ok" in rp:
             cmp_node(ctx, rp["ok"][0], node.neuter(), "ExtendedPublicKey::from_seed")
         nodes = [node]
@@ -197,7 +213,7 @@ def judge(ctx, case):
                     pnode = bip32.ckd_pub(pnode, i)
                 expect.append(pnode)
             pre = [{q: v for q, v in s.items() if q != "idxs"} for s in case["steps"][:na]]
-            rp = ctx.call({"op": "bip32", "start": {"seed": case["seed"]}, "steps": pre + psteps}, watchdog=300)
+            rp = ctx.call({"op": "bip32", "start": {"seed": case["seed"]}, "steps": pre + psteps, "via_impl": vi}, watchdog=300)
             ctx.ev()
             if "ok" not in rp:
                 ctx.viol("public derivation chain could not be executed", {"resp": str(rp)[:300]})
@@ -212,7 +228,7 @@ def judge(ctx, case):
                 ctx.ev()
                 last = ps[len(expect)] if len(ps) > len(expect) else None
                 if last is None or "err" not in last:
-                    ctx.viol("hardened derivation from an extended public key is not refused with an error", {"resp": str(last)[:200]})
+                    ctx.viol("hardened derivation from an extended public key is not refused with an error%s" % (" (derive_impl / derive_from_path_impl)" if vi else ""), {"resp": str(last)[:200]})
     elif k == "random":
         ctx.hit("random_start")
         which = case["which"]
@@ -266,8 +282,8 @@ def judge(ctx, case):
                 cmp_node(ctx, r["ok"][1], node, "string round-trip of a constructor-built key (%s, %s fingerprint, depth %s)" % (kind, "zero" if fp == b"\x00" * 4 else "non-zero", "0" if case["depth"] == 0 else ">0"))
     elif k == "badpath":
         ctx.hit("badpath")
-        for kind in ("seed", "xpub_seed"):
-            r = ctx.call({"op": "bip32", "start": {kind: case["seed"]}, "steps": [{"path": case["path"]}]})
+        for kind, vi in (("seed", False), ("xpub_seed", False), ("seed", True), ("xpub_seed", True)):
+            r = ctx.call({"op": "bip32", "start": {kind: case["seed"]}, "steps": [{"path": case["path"]}], "via_impl": vi})
             ctx.ev()
             if "ok" not in r:
                 ctx.viol("derive_from_path with an out-of-range component fails abnormally", {"path": case["path"], "resp": str(r)[:200]})
@@ -289,6 +305,11 @@ def judge(ctx, case):
             return
         r = ctx.call({"op": "bip32", "start": {case["kind"]: s}})
         ctx.ev()
+        if "ok" not in r:
+            r2 = ctx.call({"op": "bip32", "start": {case["kind"]: s}, "via_impl": True})
+            ctx.ev()
+            if "ok" in r2:
+                ctx.viol("%s string with a checksum that no longer matches its payload is accepted by from_string_impl (%s)" % (case["kind"], case["what"]), {"s": s})
         if "ok" in r:
             ctx.viol("%s string with a checksum that no longer matches its payload is accepted (%s)" % (case["kind"], case["what"]), {"s": s, "parsed": str(r["ok"][0])[:200]})
         elif "panic" in r:
